@@ -252,3 +252,47 @@ fn c16_packed_pairs_symmetric() {
     }
     println!("CASES c16_packed_pairs {cases}");
 }
+
+/// triples with packed operands whose spans are listed in any order (the string-encoding geometry {[0,1) [1,8) [8,256)} split
+/// over one or two operands) against `bytes` / a dynamic array / more packed: every grouping and order gives the same outcome class
+#[test]
+fn c16_packed_triples_group_and_order_independent() {
+    use storage_layout_extractor::tc::expression::Span;
+    std::panic::set_hook(Box::new(|_| {}));
+    let mut st = TypeCheckerState::empty();
+    let vs: Vec<TypeVariable> = (0..6).map(|i| st.register(RSV::new_value(i, Provenance::Synthetic))).collect();
+    let parent = st.register(RSV::new_value(9, Provenance::Synthetic));
+    let geo = [(0usize, 1usize), (1, 7), (8, 248)];
+    let sp = |idx: &[usize]| -> TE { TE::packed_of(idx.iter().map(|&i| Span::new(vs[i], geo[i].0, geo[i].1)).collect::<Vec<Span>>()) };
+    let operands: Vec<TE> = vec![
+        sp(&[0, 1, 2]), sp(&[2, 1, 0]), sp(&[1, 2, 0]), sp(&[2, 0]), sp(&[0, 2]), sp(&[1]), sp(&[0]), sp(&[2]), sp(&[1, 0]), sp(&[2, 1]),
+        TE::Bytes, TE::DynamicArray { element: vs[3] },
+    ];
+    let shape = |e: &TE| match e {
+        TE::Conflict { .. } => "conflict".to_string(),
+        TE::Packed { types, is_struct } => { let mut g: Vec<(usize, usize)> = types.iter().map(|s| (s.offset, s.size)).collect(); g.sort(); format!("packed struct={is_struct} spans={g:?}") }
+        TE::DynamicArray { .. } => "dynamic array".to_string(),
+        other => show(other),
+    };
+    let mut m2 = |a: &TE, b: &TE| -> Option<TE> { catch_unwind(AssertUnwindSafe(|| merge(a.clone(), b.clone(), parent, &mut st))).ok().map(|m| m.expression) };
+    let mut cases = 0;
+    let mut seen = std::collections::BTreeSet::new();
+    for a in &operands { for b in &operands { for c in &operands {
+        // at least one packed and one of bytes / dynamic array, or three packed
+        let packed = [a, b, c].iter().filter(|e| matches!(e, TE::Packed { .. })).count();
+        if packed == 0 { continue; }
+        cases += 1;
+        let mut outs = vec![];
+        for (x, y, z, name) in [(a, b, c, "(a.b).c"), (b, c, a, "a.(b.c)"), (a, c, b, "(a.c).b"), (b, a, c, "(b.a).c"), (c, b, a, "(c.b).a")] {
+            let r = m2(x, y).and_then(|xy| m2(&xy, z));
+            outs.push((name, r.as_ref().map(|e| shape(e)).unwrap_or_else(|| "PANIC".into())));
+        }
+        if outs.iter().any(|o| o.1 != outs[0].1) {
+            let key = format!("{:?}", outs.iter().map(|o| o.1.clone()).collect::<Vec<_>>());
+            if seen.insert(key) && seen.len() <= 6 {
+                witness("C16", "merge.packed_triples.group_and_order_independent", format!("a={} b={} c={}", show(a), show(b), show(c)), format!("{outs:?}"), "the same outcome for every grouping and order".into());
+            }
+        }
+    } } }
+    println!("CASES c16_packed_triples {cases}");
+}
